@@ -54,22 +54,39 @@ func ruleRootCleared(c *Ctx, r *Rule) {
 			r.Inst(1)
 			// the event is taken from the pool first: only conditions evaluated AFTER that can skip the
 			// clearing of a recycled event (the earlier ones are the admission tests of C20)
+			site := c.siteIn(ci, in)
 			var got ssa.Instruction
-			for _, g := range callsIn(f) {
-				if g.Common().IsInvoke() && g.Common().Method.Name() == "get" && instrDominates(g, ci) {
-					got = g
+			if site != nil {
+				for _, g := range callsIn(in) {
+					if g.Common().IsInvoke() && g.Common().Method.Name() == "get" && instrDominates(g, site) {
+						got = g
+					}
 				}
 			}
 			if got == nil {
-				r.Ob(false, name+"|event-taken-before-clearing", ci.Pos(), "the event whose root is cleared was taken from the pool earlier in the same function")
+				r.Ob(false, name+"|event-taken-before-clearing", ci.Pos(), "the event whose root is cleared was taken from the pool earlier in Pipeline.In")
 				continue
 			}
-			bad := ""
-			for _, cl := range c.guards(f)[ci.Block()] {
+			// guards inside a literal / inlined helper called after the get all count; guards of In itself
+			// count when evaluated after the get
+			var cls []clause
+			if f != in {
+				cls = append(cls, c.guards(f)[ci.Block()]...)
+			}
+			for _, cl := range c.guards(in)[site.Block()] {
+				var kept clause
 				for _, l := range cl {
-					if li, isI := l.v.(ssa.Instruction); !isI || li.Parent() != f || !instrDominates(got, li) {
-						continue
+					if li, isI := l.v.(ssa.Instruction); isI && li.Parent() == in && instrDominates(got, li) {
+						kept = append(kept, l)
 					}
+				}
+				if len(kept) > 0 {
+					cls = append(cls, kept)
+				}
+			}
+			bad := ""
+			for _, cl := range cls {
+				for _, l := range cl {
 					op, x, y, ok := cmpLit(l)
 					good := false
 					if ok && op == token.NEQ {
